@@ -6,6 +6,7 @@ package core
 
 import (
 	"bufio"
+	"crypto/sha256"
 	"encoding/json"
 	"fmt"
 	"os"
@@ -74,8 +75,14 @@ func OutDir() string {
 func Flush() {
 	collMu.Lock()
 	defer collMu.Unlock()
+	suffix := ""
+	for _, a := range os.Args {
+		if strings.HasPrefix(a, "-test.fuzzworker") {
+			suffix = fmt.Sprintf(".fuzzworker%d", os.Getpid()) // one fragment per fuzz worker process
+		}
+	}
 	for id, c := range collectors {
-		_ = c.Write(filepath.Join(OutDir(), id+".frag.json"))
+		_ = c.Write(filepath.Join(OutDir(), id+suffix+".frag.json"))
 	}
 }
 
@@ -161,8 +168,53 @@ func safeJudge[C any](judge func(C) Verdict, c C) (v Verdict) {
 
 // Run drives gen+judge under rapid and records evidence.
 func Run[C any](t *testing.T, id, rule string, gen func(*rapid.T) C, judge func(C) Verdict) {
+	rapid.Check(t, property(id, rule, gen, judge))
+}
+
+// Fuzz drives the same generator and oracle with Go's coverage-guided fuzzer: the fuzzed bytes are the
+// stream of random choices the generator draws from, so mutation happens on the level of generator decisions.
+func Fuzz[C any](f *testing.F, id, rule string, gen func(*rapid.T) C, judge func(C) Verdict) {
+	// starting corpus: decision streams of several lengths, a pure function of the property and JETVERIF_SEED
+	// (an empty corpus makes the fuzzer spend its budget on inputs too short for the generator)
+	for k := 0; k < 48; k++ {
+		n := []int{256, 1024, 4096, 16384}[k%4]
+		buf := make([]byte, 0, n+32)
+		for blk := 0; len(buf) < n; blk++ {
+			h := sha256.Sum256([]byte(fmt.Sprintf("%s/%s/%d/%d", id, os.Getenv("JETVERIF_SEED"), k, blk)))
+			buf = append(buf, h[:]...)
+		}
+		f.Add(buf[:n])
+	}
+	f.Fuzz(rapid.MakeFuzz(property(id, rule, gen, judge)))
+}
+
+// One judges a single case that did not come from a rapid generator (byte-level fuzz targets).
+func One[C any](t testing.TB, id string, c C, judge func(C) Verdict) {
+	col := Collector(id, "")
+	repr, err := json.Marshal(c)
+	if err != nil {
+		t.Fatalf("case not serialisable: %v", err)
+	}
+	v := safeJudge(judge, c)
+	if v.Discard != "" {
+		col.Label("discard:" + v.Discard)
+		return
+	}
+	if v.Known != "" && IsKnown(id, v.Known) {
+		col.Exclude(v.Known)
+		return
+	}
+	col.Record(repr, v.NonTrivial, v.Labels)
+	if v.Err != "" {
+		col.Violation()
+		WriteReplay(id, repr, v.Err)
+		t.Fatalf("VIOLATION %s: %s\ncase: %s", id, v.Err, truncate(string(repr), 4000))
+	}
+}
+
+func property[C any](id, rule string, gen func(*rapid.T) C, judge func(C) Verdict) func(*rapid.T) {
 	col := Collector(id, rule)
-	rapid.Check(t, func(rt *rapid.T) {
+	return func(rt *rapid.T) {
 		c := gen(rt)
 		repr, err := json.Marshal(c)
 		if err != nil {
@@ -183,7 +235,7 @@ func Run[C any](t *testing.T, id, rule string, gen func(*rapid.T) C, judge func(
 			WriteReplay(id, repr, v.Err)
 			rt.Fatalf("VIOLATION %s: %s\ncase: %s", id, v.Err, truncate(string(repr), 4000))
 		}
-	})
+	}
 }
 
 func truncate(s string, n int) string {
